@@ -1,0 +1,8 @@
+//go:build !verif
+// +build !verif
+
+package utils
+
+import "time"
+
+func verifNow(t time.Time) time.Time { return t }
